@@ -28,6 +28,14 @@ func init() {
 	}
 }
 
+// the local names of the driver functions in order of declaration (receiver of the object template first); a consistent
+// renaming of locals in the template text is undone by canonLocals
+var driverRecv = map[string][]string{"Global": {}, "Object": {"c"}}
+var driverLocals = map[string][]string{
+	"PushStateSym": {"state"}, "PopStateSym": {"num"}, "ParserInit": {},
+	"Parser": {"input", "currentPos", "val", "lookAhead", "s", "a", "reduceIndex", "SymTy", "s", "gotoState"},
+}
+
 func dId(n string) string {
 	if !driverIds[n] {
 		panic("identifier outside the driver vocabulary: " + n)
@@ -72,6 +80,7 @@ func genDriver(repo, outdir string) {
 				panic("expected one declaration")
 			}
 			fd := f.Decls[0].(*ast.FuncDecl)
+			canonLocals(fd, append(append([]string{}, driverRecv[t[0]]...), driverLocals[fn[0]]...))
 			var ps []string
 			for _, p := range fd.Type.Params.List {
 				for _, n := range p.Names {
